@@ -31,8 +31,12 @@ VECTORS = {
     'b2': [6, None, 5, 2, None],
     'tr': [True, 2, 3, True, 1],
     'tx': [3, 'x', 2, 5, 'y'],
+    'z0': [0, 2, False, 0.0, 3],
 }
-QUICK_VEC = ['n1', 'n2', 't3', 'bl', 'tr']
+QUICK_VEC = ['n1', 'n2', 't3', 'tr', 'z0']
+# override mode: the workbook holds these other constants, so an override that is lost or ignored changes the value;
+# a blank operand cannot be expressed by an override and is covered by the workbook-constant source
+PLANTED = [101, 102, 103, 104, 105]
 
 
 def skel_text(sk, names):
@@ -120,7 +124,8 @@ def gen_literals(tier):
 
 def plan(tier, seed):
     thorough = tier == 'thorough'
-    vec = list(VECTORS) if thorough else QUICK_VEC
+    vec = [v for v in VECTORS if None not in VECTORS[v]] if thorough else QUICK_VEC
+    blank_vec = ['bl', 'b2'] if thorough else ['bl']
     phases = []
 
     def tag(gen, src, vecs):
@@ -128,13 +133,15 @@ def plan(tier, seed):
             yield dict(sk, src=src, vecs=vecs)
 
     phases.append({'name': 'L2-override', 'cases': tag(gen_L2(OPS11), 'ov', vec), 'runner': 'run_skeletons', 'chunk': 120})
-    phases.append({'name': 'L2-cell', 'cases': tag(gen_L2(OPS11 if thorough else OPS7), 'cell', ['n1', 't3']), 'runner': 'run_skeletons', 'chunk': 120})
+    phases.append({'name': 'L2-cell', 'cases': tag(gen_L2(OPS11 if thorough else OPS7), 'cell', ['n1', 't3'] + blank_vec), 'runner': 'run_skeletons', 'chunk': 120})
     phases.append({'name': 'L2-literal', 'cases': tag(gen_L2(OPS11 if thorough else OPS7), 'lit', ['n1']), 'runner': 'run_skeletons', 'chunk': 120})
-    phases.append({'name': 'L3-override', 'cases': tag(gen_L3(OPS11 if thorough else OPS7), 'ov', vec if thorough else ['n1', 't3', 'bl']),
+    phases.append({'name': 'L3-override', 'cases': tag(gen_L3(OPS11 if thorough else OPS7), 'ov', vec if thorough else ['n1', 't3', 'z0']),
                    'runner': 'run_skeletons', 'chunk': 120})
     if thorough:
+        phases.append({'name': 'L3-cell', 'cases': tag(gen_L3(OPS7), 'cell', ['bl']), 'runner': 'run_skeletons', 'chunk': 120})
+    if thorough:
         phases.append({'name': 'L4-override', 'cases': tag(gen_L4(OPS7), 'ov', ['n1', 'n2', 't3']), 'runner': 'run_skeletons', 'chunk': 120})
-    for src, vs in (('ov', vec), ('cell', ['n1', 'n2']), ('lit', ['n1'])):
+    for src, vs in (('ov', vec), ('cell', ['n1', 'n2'] + blank_vec), ('lit', ['n1'])):
         phases.append({'name': 'unary-' + src, 'cases': tag(gen_unary(), src, vs), 'runner': 'run_skeletons', 'chunk': 60})
     phases.append({'name': 'literals', 'cases': gen_literals(tier), 'runner': 'run_literals', 'chunk': 400})
     return phases
@@ -230,8 +237,8 @@ def run_skeletons(cases, stats):
             names = [n + '@0' for n in NAMES]
             text = formula_of(c, names)
             it = {'f': {'Z@0': text}}
-            if src == 'cell':
-                pass  # one item per vector, added below
+            if src == 'ov':
+                it['cells'] = {NAMES[k] + '@0': v for k, v in enumerate(PLANTED)}
             items.append(it)
         meta.append(text)
     vio = []
